@@ -31,6 +31,11 @@ def parse_stmt(src: str) -> ast.stmt:
 
 
 def _eq(a, b) -> bool:
+    # an identifier bound through an `arg`/`attr`/`name` slot is a plain string
+    if isinstance(a, str) and isinstance(b, ast.Name):
+        return a == b.id
+    if isinstance(b, str) and isinstance(a, ast.Name):
+        return b == a.id
     if isinstance(a, ast.AST) and isinstance(b, ast.AST):
         return ast.unparse(a) == ast.unparse(b)  # ignores Load/Store context
     return a == b
